@@ -3,6 +3,8 @@ import PhysisModel.Driver.Inflate
 import PhysisModel.Base.Proto
 import PhysisModel.Spec.SqPackData
 import PhysisModel.Model.Dat
+import PhysisModel.Model.Extract
+import PhysisModel.Driver.C01
 /-!
 Driver for C02.  Case grammar (one line, fields separated by single spaces):
 
@@ -17,7 +19,13 @@ Driver for C02.  Case grammar (one line, fields separated by single spaces):
 
 `input` for the implementation: `<offset> <dat file hex>` — the file is `prefix ++ pack… ++ suffix`
 with the entry encoded by `Spec/SqPackData`.  Answer: extracted bytes as hex | `none` | `panic`.
-The model's `inflate` parameter is instantiated with the (stream ↦ content) pairs of the case.
+The model's `inflate` parameter is instantiated with the executable inflater of `Model/Inflate.lean`.
+
+End to end (the property is stated for entries "in dat0..dat7", observed at `GameData::extract`):
+
+  xarch <platform 0..4> <dirs> <queries> <mode> <record> <record> …
+
+see the section "entries in a synthetic installation" below.
 -/
 namespace Physis.Driver.C02
 open Physis Physis.Proto Physis.Spec.SqPackData
@@ -48,6 +56,19 @@ def showRes : Option (Option Bytes) → String
   | some none => "none"
   | some (some d) => Bytes.toHex d
 
+def parseMeta (mt : String) : Option ModelMeta :=
+  match mt.splitOn "," with
+  | [v, vd, mn, l, ibs, ege] => do
+    some { version := (← v.toNat?).toUInt32, vertexDeclarationNum := (← vd.toNat?).toUInt16,
+           materialNum := (← mn.toNat?).toUInt16, numLods := (← l.toNat?).toUInt8,
+           indexBufferStreaming := (← ibs.toNat?) == 1, edgeGeometry := (← ege.toNat?) == 1 }
+  | _ => none
+
+def parseSections (secs : String) : Option ModelSections := do
+  match ← (secs.splitOn "|").mapM parseBlocks with
+  | [st, rt, v0, e0, i0, v1, e1, i1, v2, e2, i2] => some ⟨st, rt, v0, e0, i0, v1, e1, i1, v2, e2, i2⟩
+  | _ => none
+
 def finish (units suffix : Nat) (entry : Bytes) (all : List Block) (expected : Bytes) (wf : Bool) : String :=
   let pre := filler (units * 128) 3
   let file := pre ++ entry ++ filler suffix 5
@@ -55,6 +76,179 @@ def finish (units suffix : Nat) (entry : Bytes) (all : List Block) (expected : B
   if wf then
     answer (toString (units * 128) ++ " " ++ Bytes.toHex file) (Bytes.toHex expected) [] (some (showRes model))
   else bad
+
+/-! ## entries in a synthetic installation, extracted through `GameData::extract`
+
+  xarch <platform 0..4> <dirs> <queries> <mode> <record> <record> …
+
+* dirs     comma-separated hex names of the directories below `sqpack` (listing order)
+* queries  comma-separated `x<path hex>` (extract) | `e<path hex>` (exists) | `o<path hex>` (find_offset)
+* mode     `one` (all queries on one handle) | `fresh` (a new handle per query)
+* record   `E <path hex> <chunk> <kinds 1|2|3> <dat id 0..7> <units> <payload>`: the index files of
+           the path's repository / category (as `Spec.Archive.resolve` says) and that chunk — `.index`
+           (kinds 1), `.index2` (2) or both (3) — list the path with dat id and offset `units * 128`;
+           payload = `std <blocks>` | `tex <texture header hex> <mips>` | `mdl <meta> <secs>` (as in
+           the single-file ops above): that entry, encoded by `Spec/SqPackData`, sits at that offset
+           of dat file `<dat id>`; or `none`: nothing is written (the index entry points at whatever
+           another record put at that offset, or into a dat file that does not exist).
+           The records of one dat file come in ascending offset order and must not overlap (else
+           `bad-case`); gaps are filled with non-zero filler that depends on the dat id, so that the
+           same offset in two dat files never holds the same bytes unless the case says so.
+
+Index files are encoded by `Spec/Archive.encodeIndex`, file names come from `Spec/Archive`; `input`:
+`xarch <platform> <dirs> <files> <queries> <mode>` with files as in C01 (it is run by C01's
+installation runner).  Answers as in C01: `x<hex>` | `xnone` | `T` | `F` | `o<n>` | `onone` | `panic`.
+Specification: `locate` (C01) gives repository, category, chunk, dat id and offset of a path; the
+expected answer is the content packed at that place (`c02_extract_standard` is the theorem behind
+it; for texture / model entries the same composition with `c02_texture` / `c02_model`).
+-/
+section archive
+open Physis.Spec.Archive
+
+inductive Payload
+  | std (bs : List Block)
+  | tex (hdr : Bytes) (mips : List (List Block))
+  | mdl (m : ModelMeta) (s : ModelSections)
+  | nothing
+
+def Payload.pack : Payload → Bytes
+  | .std bs => packStandard bs
+  | .tex hdr mips => packTexture hdr mips
+  | .mdl m s => packModel m s
+  | .nothing => []
+
+/-- what the property says extraction must return -/
+def Payload.content : Payload → Bytes
+  | .std bs => contents bs
+  | .tex hdr mips => hdr ++ contents mips.flatten
+  | .mdl m s => unpackedModel m s
+  | .nothing => []
+
+def Payload.wf : Payload → Bool
+  | .std bs => standardWf bs
+  | .tex hdr mips => textureWf hdr mips
+  | .mdl _ s => modelWf s
+  | .nothing => true
+
+structure XEntry where
+  path : Bytes
+  chunk : Nat
+  kinds : Nat
+  dat : Nat
+  units : Nat
+  payload : Payload
+
+def mkEntry (path ch k d u : String) (payload : Payload) : Option XEntry := do
+  let k ← k.toNat?
+  let d ← d.toNat?
+  if k < 1 || k > 3 || d > 7 then none
+  some { path := ← Bytes.ofHexFast path, chunk := ← ch.toNat?, kinds := k, dat := d, units := ← u.toNat?, payload }
+
+def parseRecords : List String → Option (List XEntry)
+  | [] => some []
+  | "E" :: path :: ch :: k :: d :: u :: "std" :: blocks :: rest => do
+    some ((← mkEntry path ch k d u (.std (← parseBlocks blocks))) :: (← parseRecords rest))
+  | "E" :: path :: ch :: k :: d :: u :: "tex" :: hdr :: mips :: rest => do
+    some ((← mkEntry path ch k d u (.tex (← Bytes.ofHexFast hdr) (← (mips.splitOn "|").mapM parseBlocks)))
+      :: (← parseRecords rest))
+  | "E" :: path :: ch :: k :: d :: u :: "mdl" :: mt :: secs :: rest => do
+    some ((← mkEntry path ch k d u (.mdl (← parseMeta mt) (← parseSections secs))) :: (← parseRecords rest))
+  | "E" :: path :: ch :: k :: d :: u :: "none" :: rest => do
+    some ((← mkEntry path ch k d u .nothing) :: (← parseRecords rest))
+  | _ => none
+
+structure Placed where
+  files : List ((Nat × Nat × Nat × Nat) × Bytes)          -- (exp, cat id, chunk, dat id) ↦ dat file
+  slots : List ((Nat × Nat × Nat × Nat) × List Entry)     -- (exp, cat id, chunk, kind 1|2) ↦ entries
+  table : List ((Nat × Nat × Nat × Nat × Nat) × Bytes)    -- (exp, cat id, chunk, dat id, offset) ↦ packed content
+
+def updList {κ α} [BEq κ] (l : List (κ × α)) (k : κ) (dflt : α) (f : α → α) : List (κ × α) :=
+  if l.any (fun x => x.1 == k) then l.map (fun x => if x.1 == k then (x.1, f x.2) else x)
+  else l ++ [(k, f dflt)]
+
+/-- place one record: repository and category as `Spec.Archive.resolve` says for its path -/
+def place (dirs : List Bytes) (pl : Placed) (e : XEntry) : Option Placed := do
+  let a0 : Archive := { platform := .win32, dirs, slot := fun _ _ _ _ => .absent }
+  let (exp, cat) ← resolve a0 e.path
+  if !e.payload.wf then none
+  let dk := (exp, cat.id, e.chunk, e.dat)
+  let off := e.units * 128
+  let (files, table) ← (match e.payload with
+    | .nothing => some (pl.files, pl.table)
+    | p =>
+      let cur := ((pl.files.lookup dk).getD []).length
+      if cur > off then none else
+      some (updList pl.files dk [] (fun d => d ++ filler (off - cur) (cur + 17 * e.dat + 3) ++ p.pack),
+            pl.table ++ [((exp, cat.id, e.chunk, e.dat, off), p.content)]))
+  let lp := Str.lower e.path
+  let addTo (slots : List ((Nat × Nat × Nat × Nat) × List Entry)) (kn : Nat) (k : Kind) : Option (List ((Nat × Nat × Nat × Nat) × List Entry)) := do
+    let h ← hashOf k lp
+    some (updList slots (exp, cat.id, e.chunk, kn) [] (fun es =>
+      es ++ [{ hash := h, synonym := false, datId := e.dat.toUInt8, offset := off.toUInt64 }]))
+  let slots ← (if e.kinds == 1 || e.kinds == 3 then addTo pl.slots 1 .index1 else some pl.slots)
+  let slots ← (if e.kinds == 2 || e.kinds == 3 then addTo slots 2 .index2 else some slots)
+  some { files, slots, table }
+
+/-- the specification's answer; `none` = the case is outside the grammar (an index entry pointing
+into an existing dat file at an offset where no record starts) -/
+def specAnswer (a : Archive) (pl : Placed) : GameData.Query → Option String
+  | .exists p => some (if (locate a p).isSome then "T" else "F")
+  | .findOffset p => some (match locate a p with | some l => "o" ++ toString l.offset.toNat | none => "onone")
+  | .extract p =>
+    match locate a p with
+    | none => some "xnone"
+    | some l =>
+      match pl.table.lookup (l.exp, l.cat.id, l.chunk, l.datId.toNat, l.offset.toNat) with
+      | some content => some ("x" ++ Bytes.toHex content)
+      | none => if (pl.files.lookup (l.exp, l.cat.id, l.chunk, l.datId.toNat)).isSome then none else some "xnone"
+
+def showExtract : Option (Option Bytes) → String
+  | none => "panic"
+  | some none => "xnone"
+  | some (some d) => "x" ++ Bytes.toHex d
+
+def modelStep (disk : GameData.Disk) (g : GameData.GameData) : GameData.Query → String × GameData.GameData
+  | .extract p => let (r, g) := GameData.extractFull (inflateOf []) disk g p; (showExtract r, g)
+  | q => let (ans, g) := GameData.step disk g q; (C01.showAnswer disk ans, g)
+
+def modelAnswers (disk : GameData.Disk) : GameData.GameData → List GameData.Query → List String
+  | _, [] => []
+  | g, q :: qs => let (s, g) := modelStep disk g q; s :: modelAnswers disk g qs
+
+def handleXarch (pl dirs qs mode : String) (records : List String) : Option String := do
+  let plat ← C01.platOf (← pl.toNat?)
+  let dirsB ← (C01.splitList dirs ",").mapM Bytes.ofHexFast
+  let qsP ← (C01.splitList qs ",").mapM C01.parseQuery
+  let fresh ← (if mode == "one" then some false else if mode == "fresh" then some true else none)
+  let entries ← parseRecords records
+  let placed ← entries.foldlM (place dirsB) { files := [], slots := [], table := [] }
+  let slotSpecs ← placed.slots.mapM (fun ((e, c, ch, kn), es) => do
+    let cat ← C01.catOfId c
+    let k ← C01.kindOf kn
+    let f : IndexFile := { platform := plat, kind := k, entries := es,
+                           dataSeg := List.replicate 256 0xFF, folderSeg := List.replicate 16 0x11 }
+    if !f.wf then none else
+    some ({ exp := e, cat, chunk := ch, kind := k, slot := .file f } : C01.SlotSpec))
+  -- files of a directory that does not exist cannot exist
+  if slotSpecs.any (fun s => !dirsB.contains (repoDir s.exp)) then none
+  let a := C01.archiveOf plat dirsB slotSpecs
+  let datFiles ← placed.files.mapM (fun ((e, c, ch, d), b) => do
+    let cat ← C01.catOfId c
+    some ((repoDir e, datName plat e cat ch d), b))
+  let files : C01.Files :=
+    slotSpecs.filterMap (fun s => (s.slot.bytes).map (fun b => ((repoDir s.exp, indexName plat s.exp s.cat s.chunk s.kind), b)))
+      ++ datFiles
+  let spec ← qsP.mapM (specAnswer a placed)
+  let disk : GameData.Disk := fun d n => files.lookup (d, n)
+  let model := match GameData.fromExisting (C01.modelPlat plat) dirsB with
+    | none => qsP.map (fun _ => "panic")
+    | some g => if fresh then qsP.map (fun q => (modelStep disk g q).1) else modelAnswers disk g qsP
+  let input := " ".intercalate ["xarch", toString plat.id.toNat, dirs, C01.showFiles files, qs, mode]
+  let triv := spec.all (fun x => x == "xnone" || x == "x" || x == "F" || x == "onone")
+  if qsP.isEmpty then none else
+  some (answer input (",".intercalate spec) (if triv then ["triv"] else []) (some (",".intercalate model)))
+
+end archive
 
 def handle (line : String) : String :=
   match fields line with
@@ -76,18 +270,13 @@ def handle (line : String) : String :=
     | none => bad
   | ["mdl", units, suffix, mt, secs] =>
     match (do
-      let m ← (match mt.splitOn "," with
-        | [v, vd, mn, l, ibs, ege] => do
-          some ({ version := (← v.toNat?).toUInt32, vertexDeclarationNum := (← vd.toNat?).toUInt16,
-                  materialNum := (← mn.toNat?).toUInt16, numLods := (← l.toNat?).toUInt8,
-                  indexBufferStreaming := (← ibs.toNat?) == 1, edgeGeometry := (← ege.toNat?) == 1 } : ModelMeta)
-        | _ => none)
-      let secs ← (secs.splitOn "|").mapM parseBlocks
-      match secs with
-      | [st, rt, v0, e0, i0, v1, e1, i1, v2, e2, i2] =>
-        let s : ModelSections := ⟨st, rt, v0, e0, i0, v1, e1, i1, v2, e2, i2⟩
-        some (finish (← units.toNat?) (← suffix.toNat?) (packModel m s) s.all (unpackedModel m s) (modelWf s))
-      | _ => none) with
+      let m ← parseMeta mt
+      let s ← parseSections secs
+      some (finish (← units.toNat?) (← suffix.toNat?) (packModel m s) s.all (unpackedModel m s) (modelWf s))) with
+    | some r => r
+    | none => bad
+  | "xarch" :: pl :: dirs :: qs :: mode :: records =>
+    match handleXarch pl dirs qs mode records with
     | some r => r
     | none => bad
   | _ => bad
